@@ -28,6 +28,9 @@ type Ctx struct {
 	// obligations open; see MergeViewRun.
 	ViewMode bool
 	views    *iview.Builder
+	// static callers of every function / functions used as values (privateHelperOf)
+	callersIdx map[*ssa.Function][]*ssa.Function
+	valueUse   map[*ssa.Function]bool
 }
 
 // viewOf returns the inlined view of f (or f itself when no view can be built).
@@ -91,6 +94,25 @@ func IDs() []string {
 // obligation (fails the check), never a silent skip.
 func (c *Ctx) fn(rel, recv, name string) *fnRef {
 	f := c.P.Func(rel, recv, name)
+	if f == nil || f.Blocks == nil {
+		// a function turned into a method (or the reverse, or moved to another receiver of the
+		// package) keeps its name: accept it when exactly one function or method of the package
+		// has that name
+		var cands []*ssa.Function
+		for _, g := range c.P.SrcFuncs(rel) {
+			if g.Parent() == nil && g.Name() == name && g.Blocks != nil {
+				cands = append(cands, g)
+			}
+		}
+		if len(cands) == 1 {
+			f = cands[0]
+			if c.P.Looked == nil {
+				c.P.Looked = map[*ssa.Function]bool{}
+			}
+			c.P.Looked[f] = true
+			c.L.Note("anchor %s.%s resolved to %s (same name, different receiver)", rel, name, f)
+		}
+	}
 	label := rel + "." + name
 	if recv != "" {
 		label = fmt.Sprintf("%s.(%s).%s", rel, recv, name)
@@ -116,4 +138,14 @@ func SetTier(tier string) {
 		altBudget = maxAlts
 		eofMaxIter = 5
 	}
+}
+
+// origFn: the function a view was made from (or fn itself).
+func (c *Ctx) origFn(fn *ssa.Function) *ssa.Function {
+	if c.views != nil {
+		if o := c.views.OrigOf[fn]; o != nil {
+			return o
+		}
+	}
+	return fn
 }
